@@ -240,8 +240,9 @@ class _ParallelMapperIter(Iterator[T]):
         while True:
             if self._stop.is_set() or self._mp_stop.is_set():
                 raise StopIteration()
-            elif self._done and self._sem._value == self._max_tasks:
-                # _done is set, and semaphore is back at initial value, so we can stop
+            elif (self._done or not self._read_thread.is_alive()) and self._sem._value == self._max_tasks:
+                # _done is set (or the read thread ended after reporting an error, so nothing more
+                # will ever arrive), and semaphore is back at initial value, so we can stop
                 self._stop.set()
                 self._mp_stop.set()
                 raise StopIteration()
